@@ -314,3 +314,108 @@ package ggql
 //@ --        invariant[names] notYetNamed(addrof(list), t.fields, rangeindex+1)
 //@ --        invariant[all-kept] allKept(addrof(list), t.fields, rangeindex+1)
 //@           decreases len(t.fields.list) - rangeindex
+
+//@ -- ------------------------------------------------------------------ possible types, unions, enums, the schema element
+//@ -- typeList.add re-sorts the list with sort.Slice and a closure (outside the verifier's subset): its contract is
+//@ -- trusted and only states the list as a set
+//@ func (*typeList).add
+//@   abstract sort.Slice with a comparison closure; the list is kept sorted by rank and name, only set membership is stated
+//@   requires tl != nil
+//@   ensures[len] len(tl.list) == old(len(tl.list)) + len(ts)
+//@   ensures[old-kept] forall k0 int {old(tl.list[k0])} :: 0 <= k0 && k0 < old(len(tl.list)) ==> (exists k int {tl.list[k]} :: 0 <= k && k < len(tl.list) && tl.list[k] == old(tl.list[k0]))
+//@   ensures[new-added] forall i int {ts[i]} :: 0 <= i && i < len(ts) ==> (exists k int {tl.list[k]} :: 0 <= k && k < len(tl.list) && tl.list[k] == ts[i])
+//@   ensures[nothing-else] forall k int {tl.list[k]} :: 0 <= k && k < len(tl.list) ==> ((exists k0 int {old(tl.list[k0])} :: 0 <= k0 && k0 < old(len(tl.list)) && tl.list[k] == old(tl.list[k0])) || (exists i int {ts[i]} :: 0 <= i && i < len(ts) && tl.list[k] == ts[i]))
+//@   assigns fresh, tl.list, tl.dict[]
+
+//@ spec implementor(x Type, t *Interface) bool = is(x, *Object) && as(x, *Object) != nil && (exists i int {as(x, *Object).Interfaces[i]} :: 0 <= i && i < len(as(x, *Object).Interfaces) && as(x, *Object).Interfaces[i] == box(t))
+//@ -- possibleTypes of an interface: exactly the object types of the schema that list it
+//@ func (*Interface).possibleTypes
+//@   props C17
+//@   check panic {C03}
+//@   requires t != nil && t.Root != nil && t.Root.types != nil
+//@   results res
+//@   ensures[fresh] res != nil && fresh(res)
+//@   ensures[only-implementors] forall k int {res.list[k]} :: 0 <= k && k < len(res.list) ==> implementor(res.list[k], t)
+//@   ensures[every-implementor] forall j int {t.Root.types.list[j]} :: 0 <= j && j < len(t.Root.types.list) && implementor(t.Root.types.list[j], t) ==> (exists k int {res.list[k]} :: 0 <= k && k < len(res.list) && res.list[k] == t.Root.types.list[j])
+//@   assigns fresh
+//@   loop 0: invariant[list] list != nil && fresh(list)
+//@           invariant[table-unchanged] t.Root.types.list == old(t.Root.types.list)
+//@           invariant[only] forall k int {list.list[k]} :: 0 <= k && k < len(list.list) ==> implementor(list.list[k], t)
+//@           invariant[every] forall j int {t.Root.types.list[j]} :: 0 <= j && j <= rangeindex && implementor(t.Root.types.list[j], t) ==> (exists k int {list.list[k]} :: 0 <= k && k < len(list.list) && list.list[k] == t.Root.types.list[j])
+//@   loop 1: invariant[list] list != nil && fresh(list)
+//@           invariant[table-unchanged] t.Root.types.list == old(t.Root.types.list)
+//@           invariant[only] forall k int {list.list[k]} :: 0 <= k && k < len(list.list) ==> implementor(list.list[k], t)
+//@           invariant[every-before] forall j int {t.Root.types.list[j]} :: 0 <= j && j <= rangeindex_outer && implementor(t.Root.types.list[j], t) ==> (exists k int {list.list[k]} :: 0 <= k && k < len(list.list) && list.list[k] == t.Root.types.list[j])
+//@           invariant[this-one] (exists i int {obj.Interfaces[i]} :: 0 <= i && i <= rangeindex && obj.Interfaces[i] == box(t)) ==> (exists k int {list.list[k]} :: 0 <= k && k < len(list.list) && list.list[k] == box(obj))
+
+//@ func (*Interface).Resolve
+//@   props C17
+//@   check panic {C03}
+//@   requires t != nil && field != nil
+//@   requires t.Root != nil && t.Root.types != nil
+//@   ensures[kind] field.Name == "kind" ==> result == box("INTERFACE") && err == nil
+//@   ensures[name] field.Name == "name" ==> result == box(t.N) && err == nil
+//@   ensures[description] field.Name == "description" ==> result == box(t.Desc) && err == nil
+//@   ensures[fields-all] field.Name == "fields" && is(args["includeDeprecated"], bool) && as(args["includeDeprecated"], bool) ==> result == box(t.fields) && err == nil
+//@   ensures[fields-current] field.Name == "fields" && !(is(args["includeDeprecated"], bool) && as(args["includeDeprecated"], bool)) ==> err == nil && is(result, *fieldList) && as(result, *fieldList) != nil && keptFields(as(result, *fieldList), t.fields, len(t.fields.list))
+//@   ensures[possibleTypes] field.Name == "possibleTypes" ==> err == nil && is(result, *typeList) && as(result, *typeList) != nil && (forall k int {as(result, *typeList).list[k]} :: 0 <= k && k < len(as(result, *typeList).list) ==> implementor(as(result, *typeList).list[k], t))
+//@   ensures[interfaces] field.Name == "interfaces" ==> result == nil && err == nil
+//@   ensures[enumValues] field.Name == "enumValues" ==> result == nil && err == nil
+//@   ensures[inputFields] field.Name == "inputFields" ==> result == nil && err == nil
+//@   ensures[ofType] field.Name == "ofType" ==> result == nil && err == nil
+//@   assigns fresh
+
+//@ func (*Union).Resolve
+//@   props C17
+//@   check panic {C03}
+//@   requires t != nil && field != nil
+//@   ensures[kind] field.Name == "kind" ==> result == box("UNION") && err == nil
+//@   ensures[name] field.Name == "name" ==> result == box(t.N) && err == nil
+//@   ensures[description] field.Name == "description" ==> result == box(t.Desc) && err == nil
+//@   ensures[possibleTypes] field.Name == "possibleTypes" ==> err == nil && is(result, *typeList) && as(result, *typeList) != nil && len(as(result, *typeList).list) == len(t.Members) && (forall i int {t.Members[i]} :: 0 <= i && i < len(t.Members) ==> (exists k int {as(result, *typeList).list[k]} :: 0 <= k && k < len(as(result, *typeList).list) && as(result, *typeList).list[k] == t.Members[i])) && (forall k int {as(result, *typeList).list[k]} :: 0 <= k && k < len(as(result, *typeList).list) ==> (exists i int {t.Members[i]} :: 0 <= i && i < len(t.Members) && as(result, *typeList).list[k] == t.Members[i]))
+//@   ensures[fields] field.Name == "fields" ==> result == nil && err == nil
+//@   ensures[interfaces] field.Name == "interfaces" ==> result == nil && err == nil
+//@   ensures[enumValues] field.Name == "enumValues" ==> result == nil && err == nil
+//@   ensures[inputFields] field.Name == "inputFields" ==> result == nil && err == nil
+//@   ensures[ofType] field.Name == "ofType" ==> result == nil && err == nil
+//@   assigns fresh
+
+//@ -- the schema element: the type and directive tables and the three root operation types
+//@ spec rootOpType(root *Root, op string) interface{} = ite(root.schema != nil && root.schema.fields.dict != nil && root.schema.fields.dict[op] != nil, box(root.schema.fields.dict[op].Type), nil)
+//@ func (*Root).Resolve
+//@   props C17
+//@   check panic {C03}
+//@   requires root != nil && field != nil
+//@   ensures[types] field.Name == "types" ==> result == box(root.types) && err == nil
+//@   ensures[directives] field.Name == "directives" ==> result == box(root.dirs) && err == nil
+//@   ensures[queryType] field.Name == "queryType" ==> result == rootOpType(root, "query") && err == nil
+//@   ensures[mutationType] field.Name == "mutationType" ==> result == rootOpType(root, "mutation") && err == nil
+//@   ensures[subscriptionType] field.Name == "subscriptionType" ==> result == rootOpType(root, "subscription") && err == nil
+//@   assigns nothing
+
+//@ -- enum types: enumValues without includeDeprecated lists only values that do not carry @deprecated
+//@ spec evDep(ev *EnumValue) bool = depUpTo(ev.Directives, len(ev.Directives))
+//@ spec keptValues(r *enumValueList, src *enumValueList, n int) bool = forall j int {r.list[j]} :: 0 <= j && j < len(r.list) ==> (exists i int {src.list[i]} :: 0 <= i && i < n && r.list[j] == src.list[i] && !evDep(src.list[i]))
+//@ spec valuesOk(el *enumValueList) bool = forall k int {el.list[k]} :: 0 <= k && k < len(el.list) ==> el.list[k] != nil
+//@ func (*Enum).Resolve
+//@   props C17
+//@   check panic {C03}
+//@   requires t != nil && field != nil
+//@   requires allocated(t.values)
+//@   requires valuesOk(t.values)
+//@   ensures[kind] field.Name == "kind" ==> result == box("ENUM") && err == nil
+//@   ensures[name] field.Name == "name" ==> result == box(t.N) && err == nil
+//@   ensures[description] field.Name == "description" ==> result == box(t.Desc) && err == nil
+//@   ensures[enumValues-all] field.Name == "enumValues" && is(args["includeDeprecated"], bool) && as(args["includeDeprecated"], bool) ==> result == box(t.values) && err == nil
+//@   ensures[enumValues-current] field.Name == "enumValues" && !(is(args["includeDeprecated"], bool) && as(args["includeDeprecated"], bool)) ==> err == nil && is(result, *enumValueList) && as(result, *enumValueList) != nil && keptValues(as(result, *enumValueList), t.values, len(t.values.list))
+//@   ensures[fields] field.Name == "fields" ==> result == nil && err == nil
+//@   ensures[interfaces] field.Name == "interfaces" ==> result == nil && err == nil
+//@   ensures[possibleTypes] field.Name == "possibleTypes" ==> result == nil && err == nil
+//@   ensures[inputFields] field.Name == "inputFields" ==> result == nil && err == nil
+//@   ensures[ofType] field.Name == "ofType" ==> result == nil && err == nil
+//@   assigns fresh
+//@   loop 0: invariant[bounds] 0 <= rangeindex+1 && rangeindex+1 <= len(t.values.list)
+//@           invariant[fresh] addrof(list) != nil && fresh(addrof(list))
+//@           invariant[src] t.values.list == old(t.values.list)
+//@           invariant[ok] valuesOk(t.values)
+//@           invariant[kept] keptValues(addrof(list), t.values, rangeindex+1)
